@@ -137,6 +137,12 @@ pub enum PatchKind {
     Malformed,
     /// add a long string so the document grows by about n bytes
     Grow(u32),
+    /// `[]`: succeeds and leaves the document as it is (still a write: new timestamp, TTL cleared)
+    Empty,
+    /// add /extra/same = 1: the second application leaves the document byte-identical
+    AddSame,
+    /// `test` /extra/same == 1 alone: passes (without changing anything) once AddSame was applied
+    TestSame,
 }
 
 #[derive(Clone, Copy, Debug, Serialize, Deserialize, PartialEq, Eq)]
@@ -463,12 +469,16 @@ pub fn op_strategy(b: &Bias) -> BoxedStrategy<Op> {
     let ts = || tsspec(b);
     let v = || valspec(b);
     let patch = wone![
-        4 => any::<i32>().prop_map(PatchKind::ReplaceN),
+        3 => any::<i32>().prop_map(PatchKind::ReplaceN),
+        2 => (0i32..3).prop_map(PatchKind::ReplaceN),
         3 => any::<u8>().prop_map(PatchKind::AddField),
         2 => Just(PatchKind::RemoveField),
         2 => Just(PatchKind::FailingTest),
         1 => Just(PatchKind::Malformed),
         1 => (1u32..9000).prop_map(PatchKind::Grow),
+        2 => Just(PatchKind::Empty),
+        2 => Just(PatchKind::AddSame),
+        1 => Just(PatchKind::TestSame),
     ];
     let expect = wone![
         6 => Just(Expect::Current),
